@@ -316,6 +316,9 @@ def u_finalize(ctx, K, empty, fail):
     # content of the list: the sorted ids
     lst = fs.nodes["/work/cat/patch_ids.bin"].parts[-1][1]
     ctx.check(f"{name}/post:list_has_one_entry_per_patch", hasattr(lst, "shape") and bool(lst.shape[0] == K) if hasattr(lst, "shape") else len(lst) == K)
+    want = sorted(ids)
+    ctx.check(f"{name}/post:list_is_sorted_ascending", hasattr(lst, "at") and all(bool(lst.at(k) == want[k]) for k in range(K)),
+              detail="the patch list must be the ascending ids: load_patches pairs it with the centres by position")
 
 
 @unit(P, "read_patch_ids", fuc=["yaw.catalog.catalog:read_patch_ids"], cases=[dict(state=s) for s in ("absent", "empty", "complete")])
